@@ -117,6 +117,18 @@ def build_case(case):
             q, rm = np.linalg.qr(cores[i].reshape(r, m * n * rr).T)
             cores[i] = q.T.reshape(q.shape[1], m, n, rr)
             cores[i - 1] = np.tensordot(cores[i - 1], rm.T, axes=([3], [0]))
+        if 'keep' not in case:
+            # a side whose flag is ON is the routine's job: it gets a random gauge, so that it is not orthonormal on arrival
+            # (only without a real cut: on a generic gauge the sweeps' relative cut sees representation-dependent spectra)
+            fl = case['flags']
+            bonds = (list(range(1, idx)) if fl[0] else []) + (list(range(idx, d)) if fl[1] else [])
+            for b in bonds:
+                rb = cores[b].shape[0]
+                g = np.eye(rb) + 0.3 * rng.standard_normal((rb, rb))
+                if np.linalg.cond(g) > 50:
+                    g = np.eye(rb)
+                cores[b - 1] = np.tensordot(cores[b - 1], g, axes=([3], [0]))
+                cores[b] = np.tensordot(np.linalg.inv(g), cores[b], axes=([1], [0]))
     if case['layout'] == 'F':
         cores = [np.asfortranarray(c) for c in cores]
     return cores
